@@ -97,10 +97,9 @@ from mitmproxy.addons import dumper as _dumper
 from mitmproxy.utils import human as _human, strutils as _strutils
 from mitmproxy.contrib import click as _click
 
-_orig_indent = _dumper.indent
-_orig_format_address = _human.format_address
-_orig_b2e = _strutils.bytes_to_escaped_str
-_orig_pretty_size = _human.pretty_size
+# the real functions, kept in a dict (module-level aliases would be patched together with the originals by vc.summary)
+_ORIG = {"indent": _dumper.indent, "format_address": _human.format_address, "b2e": _strutils.bytes_to_escaped_str,
+         "pretty_size": _human.pretty_size}
 
 STYLE_OPEN, STYLE_CLOSE = "⟪", "⟫"
 
@@ -114,37 +113,43 @@ def _uf_str(vc, name, *args):
     return SStr(lib.uf(name, *[t.sort() for t in ts], z3.StringSort())(*ts))
 
 
+def _assume(v, cond):
+    """fact about a summarised callee's result (always satisfiable: no feasibility query needed)"""
+    v.ex.assume(cond)
+
+
 def install_env(vc, styled):
     def indent_model(v, n, text):
         if v.mode == "native":
-            return _orig_indent(n, text)
+            return _ORIG["indent"](n, text)
         r = _uf_str(v, "indent", n, text)
-        v.assume(Implies(clean(text), clean(r)))
+        _assume(v, Implies(clean(text), clean(r)))
+        _assume(v, Implies(no_c1(text), no_c1(r)))
         return r
 
     def format_address_model(v, addr):
         if v.mode == "native":
-            return _orig_format_address(addr)
+            return _ORIG["format_address"](addr)
         addr = v.resolve(addr)
         if isnone(addr):
             return "<no address>"
         host, port = addr[0], addr[1]
         r = _uf_str(v, "format_address", host, port)
-        v.assume(Implies(clean(host), clean(r)))
+        _assume(v, Implies(clean(host), clean(r)))
         return r
 
     def b2e_model(v, data, keep_spacing=False, escape_single_quotes=False):
         if v.mode == "native":
-            return _orig_b2e(data, keep_spacing, escape_single_quotes)
+            return _ORIG["b2e"](data, keep_spacing, escape_single_quotes)
         r = _uf_str(v, "bytes_to_escaped_str", data, lift(keep_spacing), lift(escape_single_quotes))
-        v.assume(If(lift(keep_spacing), printable_ascii(r, True), printable_ascii(r, False)))
+        _assume(v, If(lift(keep_spacing), printable_ascii(r, True), printable_ascii(r, False)))
         return r
 
     def pretty_size_model(v, size, *a, **k):
         if v.mode == "native":
-            return _orig_pretty_size(size, *a, **k)
+            return _ORIG["pretty_size"](size, *a, **k)
         r = _uf_str(v, "pretty_size", size)
-        v.assume(printable_ascii(r))
+        _assume(v, printable_ascii(r))
         return r
 
     def style_model(v, text, **style):
@@ -210,7 +215,7 @@ def s_escape(vc):
 # echo itself: what reaches the stream is the text (indented / styled), so Clean(text) at the call sites is what counts
 
 
-@scenario("echo", functions=[D + ".echo", D + ".style"])
+@scenario("Dumper.echo", functions=[D + ".echo", D + ".style"])
 def s_echo(vc):
     styled = vc.case("styled", [False, True])
     ident = vc.case("ident", [None, 4])
@@ -286,7 +291,7 @@ def mk_http_flow(vc, with_response, with_error=False, n_headers=1):
 
 def term_size(vc):
     cols = vc.sym_int("term_columns", lo=0)
-    vc.summary("shutil:get_terminal_size", lambda v, *a, **k: (cols, 24))
+    vc.summary("shutil:get_terminal_size", lambda v, *a, **k: v.lift((cols, 24)))
 
 
 @scenario("_echo_request_line", functions=[D + "._echo_request_line", D + "._fmt_client"])
